@@ -14,7 +14,7 @@ def factory():
 
 
 def run(tier, seed):
-    return run_generic("C08", tier, seed, factory, WIT, RULE, heap_ns=((5, 6) if tier == "quick" else (5, 6, 7)))
+    return run_generic("C08", tier, seed, factory, WIT, RULE, heap_variants=(("B", "C") if tier == "quick" else ("A", "B", "C")))
 
 
 def replay(payload):
